@@ -97,6 +97,9 @@ func (d *decoder) decodeSymbolDictionary(hdr *segmentHeader, data []byte) ([]*bi
 	var inputSymbols []*bitmap.Bitmap
 	for _, refNum := range hdr.RefSegments {
 		if ref, ok := d.segments[refNum]; ok && ref.symbols != nil {
+			if len(inputSymbols)+len(ref.symbols) > 1<<maxIAIDCodeLen {
+				return nil, fmt.Errorf("more than %d symbols in referred segments", 1<<maxIAIDCodeLen)
+			}
 			inputSymbols = append(inputSymbols, ref.symbols...)
 		}
 	}
